@@ -140,6 +140,20 @@ def thousand_stems(k=1100):
     return f"hairpins{k}+single-pair-H-type", pos + 7, sorted(pairs)
 
 
+def many_small_knots(units, a=2, b=4, gap=1):
+    """A chain of `units` H-type pseudoknots whose 5' stem (a pairs) is shorter than the stem crossing it (b pairs):
+    first-come-first-served puts the long stems on level 1, the optimum puts the short ones there; 2 * units stems
+    take part in crossings."""
+    pairs, pos = [], 1
+    for _ in range(units):
+        A = list(range(pos, pos + a)); pos += a + gap
+        B = list(range(pos, pos + b)); pos += b + gap
+        Ac = list(range(pos, pos + a)); pos += a + gap
+        Bc = list(range(pos, pos + b)); pos += b + gap
+        pairs += list(zip(A, reversed(Ac))) + list(zip(B, reversed(Bc)))
+    return f"chain-of-{units}-H-types-short-stem-first", pos - 1, sorted(pairs)
+
+
 def hostile():
     out = list(HOSTILE) + _many_stems()
     # ladders needing many levels
